@@ -86,7 +86,7 @@ add("C03",
     "degree, npts. Acceptance <=> well-formedness of the constructor is decided exhaustively over all vectors up to a length bound over a 4-value alphabet "
     "(bounded, engine B); queries and every KnotVector mutator (valid and invalid requests) with symbolic knot values per shape: result as specified and "
     "well-formed, or exception with the immutable payload object untouched; all operation sequences up to a depth bound (bounded). " + S_NOTE,
-    "DESIGN.md 5/C03", COMMON_TRUST + " KnotVector('0011') -> TypeError is known finding D4.",
+    "DESIGN.md 5/C03", COMMON_TRUST + " (KnotVector('0011') -> TypeError, D4, was repaired.)",
     "contracts on the real functions; engine V (AST->VC->z3) for the query functions, exhaustive small-domain enumeration and symbolic per-shape execution for construction and mutators (bounded)")
 add("C09",
     "Contract on calculus.Derivate.*: D lives on C's interval and D(u) equals the formal derivative of the Cox-de Boor spec on every open span for all control "
@@ -160,7 +160,7 @@ add("C03",
     "which lifts well-formedness to every KnotVector reachable through any operation history. The same facts are also decided exhaustively over all vectors up to a "
     "length bound over a 4-value alphabet (engine B), queries and mutators with symbolic knot values per shape (engine S), and all operation sequences up to a depth bound. " + S_NOTE,
     "DESIGN.md 5/C03", COMMON_TRUST + " Assumed inside the V proofs (A10): tuple.count on a sorted tuple is one contiguous block; __get_unique returns the increasing "
-    "distinct values under A3. KnotVector('0011') -> TypeError is known finding D4; knots closer than 1e-6 D3.",
+    "distinct values under A3. Knots closer than 1e-6: known finding D3 (D4, the digit-string TypeError, was repaired).",
     "contracts on the real functions discharged by a VC generator over the Python AST + z3 (unbounded), frame analysis, plus exhaustive small-domain enumeration and symbolic per-shape execution (bounded)")
 add("C04",
     "Engine V proves that Operations.one_knot_insert_once returns exactly Boehm's closed-form matrix (identity rows, alpha / 1-alpha band, shift rows) with index "
